@@ -170,11 +170,11 @@ PROPERTIES['C09'] = {
 PROPERTIES['C14'] = {
     'level': 'other',
     'configs': two,
-    'rules': [olc('LOCK-3'), olc('LOCK-4'), olc('LOCK-7')],
-    'technique': 'static analysis: relational typestate dataflow for lock order / no-wait-while-locked / guard typestate on every CFG path incl. exceptional exits of scope guards',
+    'rules': [olc('LOCK-3'), olc('LOCK-4'), olc('LOCK-7'), R(point.lock10)],
+    'technique': 'static analysis: relational typestate dataflow for lock order / no-wait-while-locked / guard typestate on every CFG path incl. exceptional exits of scope guards; path-sensitive effect flow (obsoletion followed by a restart result)',
     'explanation': 'No-deadlock / no-lock-left-held conditions: LOCK-3 (write ownership is only taken by non-blocking upgrade in root-to-leaf order and no waiting primitive - try_read_lock spin, spin_wait_loop_body - is reached while a guard is active, '
-                   'so no wait-for cycle can contain a writer and readers hold nothing), LOCK-4 (no operation on a guard that is not active: no double unlock / null dereference; guards are scope-bound RAII objects), LOCK-7b (sections are not validated after they ended).',
-    'decides': 'lock acquisition order, no-wait-while-locked, guard typestate',
+                   'so no wait-for cycle can contain a writer and readers hold nothing), LOCK-4 (no operation on a guard that is not active: no double unlock / null dereference; guards are scope-bound RAII objects), LOCK-7b (sections are not validated after they ended), LOCK-10 (obsoletion is a point of no return: no path marks a node obsolete and then abandons the attempt with a restart result while the node is still linked - otherwise every later operation reaching that node restarts for ever although nobody holds a lock; path-sensitive effect flow with callee summaries).',
+    'decides': 'lock acquisition order, no-wait-while-locked, guard typestate, no restart after obsoletion',
     'does_not_decide': 'freedom from starvation / livelock (the lock header itself says readers can starve)',
 }
 PROPERTIES['C16'] = {
@@ -240,14 +240,14 @@ def stats_axis(tier):
 PROPERTIES['C05'] = {
     'level': 'other',
     'configs': stats_axis,
-    'rules': [R(qsbr.q_free_paths), R(qsbr.q_rotation), R(qsbr.q_barriers), R(lambda cfg: qsbr.q_orphans(cfg, parts=('9',)))],
+    'rules': [R(qsbr.q_free_paths), R(qsbr.q_rotation), R(qsbr.q_barriers), R(lambda cfg: qsbr.q_orphans(cfg, parts=('9',))), R(qsbr.q_tagging)],
     'technique': 'static analysis: call-graph who-may-call rules for the free sink, ordering/dominance and control-dependence rules on the rotation, path-sensitive boolean dataflow for barriers and once-only orphan handling, memory-order table',
     'explanation': 'Structural safety conditions of "QSBR never frees what a registered thread may still reference", each decided on every CFG path of qsbr.hpp/qsbr.cpp (stats on/off, debug/release): '
                    'Q-1 requests reach qsbr::deallocate only through ~deferred_requests, or at once only under single-thread mode; Q-2 only the previous-interval list (and, under single-thread mode, the current one; orphans likewise) is handed to the free sink; '
                    'Q-3 in the rotation the previous list is moved out before it receives the current list; Q-4 every rotation is control-dependent on an observed epoch change; '
                    'Q-5 the release barrier precedes every announcement (path-sensitive on the leave-previous-epoch flag), the acquire fence opens orphan handling, orphans are handled exactly once before every epoch-advancing write (at most once per unregister_thread call even across CAS retries), state-word RMWs are acq_rel and loads acquire; '
-                   'Q-9 a thread leaves the previous epoch at most once per epoch; Q-10 the single-thread-mode decision is taken on the observed old state, never on the state produced by the thread\'s own update.',
-    'decides': 'Q-1,2,3,4,5,9,10: the local generators of the two-epoch delay',
+                   'Q-9 a thread leaves the previous epoch at most once per epoch; Q-11 a request joins the current-interval list only on paths where last_seen_epoch was just compared equal to the freshly read global epoch; Q-10 the single-thread-mode decision is taken on the observed old state, never on the state produced by the thread\'s own update.',
+    'decides': 'Q-1,2,3,4,5,9,10,11: the local generators of the two-epoch delay',
     'does_not_decide': 'the global invariant "the epoch advances only when every registered thread has quiesced" under all interleavings of register/unregister with an epoch change; bit-level arithmetic of inc_epoch_* helpers',
 }
 PROPERTIES['C06'] = {
